@@ -404,7 +404,9 @@ func (s *scope) Histogram(name string, b Buckets) Histogram {
 		return h
 	}
 
-	if b == nil {
+	// n.b. An empty specification means the scope's defaults just as nil does
+	//      (and as an empty ScopeOptions.DefaultBuckets means the library's).
+	if b == nil || b.Len() < 1 {
 		b = s.defaultBuckets
 	}
 
